@@ -4,6 +4,7 @@
 package explore
 
 import (
+	"verif/harness/mstore"
 	"context"
 	"encoding/json"
 	"errors"
@@ -34,6 +35,8 @@ type Scenario struct {
 	StoreCtx bool `json:"store_ctx,omitempty"`
 	// Delay: deviations are delays (verifshim.RunOpts.Delay) instead of single preemptions.
 	Delay bool `json:"delay,omitempty"`
+	// DistFaults: faults of the stores of the remote engines (by engine index).
+	DistFaults map[int][]mstore.Fault `json:"dist_faults,omitempty"`
 }
 
 // Dev is one deviation from the default schedule.
@@ -100,9 +103,22 @@ func RunOnce(sc *Scenario, s Sched) *Obs {
 	verifshim.TakePanics()
 	bc := sc.Case
 	bc.StoreCtx = sc.StoreCtx
+	core.DistFaults = sc.DistFaults
 	eng, remoteStores, err := core.BuildEngine(&bc, nil)
+	core.DistFaults = nil
 	if err != nil {
 		panic(err)
+	}
+	if sc.StoreYield {
+		for _, rs := range remoteStores {
+			rs.Hook = verifshim.Yield
+		}
+	}
+	snapshotAll := func() {
+		st.OpenAtReturnSnapshot()
+		for _, rs := range remoteStores {
+			rs.OpenAtReturnSnapshot()
+		}
 	}
 	q, err := core.NewQuery(eng, st, &sc.Case)
 	if err != nil {
@@ -164,7 +180,7 @@ func RunOnce(sc *Scenario, s Sched) *Obs {
 			})
 			res = q.Exec(ctx)
 			execReturned = true
-			st.OpenAtReturnSnapshot()
+			snapshotAll()
 			verifshim.Recv(done)
 			q2.Close()
 			q.Close()
@@ -192,6 +208,12 @@ func RunOnce(sc *Scenario, s Sched) *Obs {
 	obs.OpenAtRet = st.OpenAtReturn
 	obs.Opens, obs.Closes = st.Opens, st.Closes
 	obs.Fired = st.Fired
+	for _, rs := range remoteStores {
+		obs.OpenAtRet += rs.OpenAtReturn
+		obs.Opens += rs.Opens
+		obs.Closes += rs.Closes
+		obs.Fired = append(obs.Fired, rs.Fired...)
+	}
 	return obs
 }
 
